@@ -255,8 +255,10 @@ def driverEnv : Env := ⟨DateFmt.isAlphaIn Gen.alphaRanges, Gen.digitZeros, Cha
 def showDisplay (c : Cell) : String :=
   let fm := selectFormatter c
   let t := formattedValue driverEnv c
-  "fm=" ++ (match fm with | .ok f => showFormatter f | .error e => "!" ++ e.name) ++
-  " t=" ++ (match t with | .ok s => showText s | .error e => "!" ++ e.name)
+  match fm, t with
+  | .ok f, .ok s => "fm=" ++ showFormatter f ++ " t=" ++ showText s
+  | _, .error e => "fm=? t=!" ++ e.name            -- which formatter failed is not observable on the real side
+  | .error e, _ => "fm=? t=!" ++ e.name
 
 /-- the fields `format_archive` sets for the key used by this call (sorted by name). -/
 def setFields (c : Cell) (name : Text) (a : Args) : String :=
